@@ -48,7 +48,9 @@ fi
 
 if [ "$id" = conform ]; then
   build conc || { echo "build failed" >&2; exit 2; }
-  exec "$VERIF_OUT/bin/conc" conform -
+  build conc_race || { echo "build failed" >&2; exit 2; }
+  "$VERIF_OUT/bin/conc" conform - || exit 2           # outcomes: native subset of explored, assertions hold
+  exec "$VERIF_OUT/bin/conc_race" conform-race -      # happens-before: race-free programs quiet, racy ones reported
 fi
 
 eng=$(engine_of "$id")
